@@ -147,6 +147,44 @@ def read_provider(ctx, s):
                             U(par) if par else None, 'parent uuid')
 
 
+def read_provider_list(ctx, s):
+    """the same representation through the listing route (a different
+    query), unfiltered and filtered"""
+    m = to_z3(ctx.data['minor'])
+    for q in ('', '?uuid=' + U(2), '?name=p2', '?in_tree=' + U(1)):
+        r = app.call('GET', '/resource_providers' + q, version='sym')
+        if r.status != 200:
+            since = {'': 0, '?uuid=': 0, '?name=': 0, '?in_tree': 14}[q[:8]]
+            obligation(ctx, 'provider-repr', m >= since,
+                       'GET /resource_providers%s answered %d' % (
+                           q, r.status), sig='list-status')
+            continue
+        got = {e['uuid']: e for e in r.json['resource_providers']}
+        want = {2} if q[:6] in ('?uuid=', '?name=') else {1, 2}
+        if set(got) != {U(p) for p in want}:
+            runner.violation(ctx, 'provider-repr', 'list%s returned %s' % (
+                q, sorted(got)), sig='list-members')
+            continue
+        for p, par in ((1, None), (2, 1)):
+            if p not in want:
+                continue
+            e = got[U(p)]
+            eq_or_violation(ctx, 'provider-repr', e['name'], 'p%d' % p,
+                            'name (list)')
+            eq_or_violation(ctx, 'provider-repr', e['generation'],
+                            s.w.prov[p]['generation'],
+                            'generation of p%d (list%s)' % (p, q[:6]))
+            has = 'root_provider_uuid' in e
+            obligation(ctx, 'provider-repr', (m < 14) if has else (m >= 14),
+                       'parent/root fields vs microversion (list)')
+            if has:
+                eq_or_violation(ctx, 'provider-repr', e['root_provider_uuid'],
+                                U(1), 'root uuid (list)')
+                eq_or_violation(ctx, 'provider-repr',
+                                e['parent_provider_uuid'],
+                                U(par) if par else None, 'parent uuid (list)')
+
+
 def read_inventories(ctx, s):
     for p in (1, 2):
         r = app.call('GET', '/resource_providers/%s/inventories' % U(p),
@@ -419,7 +457,7 @@ OWNERSHIPS = [
 ]
 
 
-READS = dict(provider=read_provider, inventories=read_inventories,
+READS = dict(provider=read_provider, provider_list=read_provider_list, inventories=read_inventories,
              traits_aggs=read_traits_aggs, usages=read_usages,
              allocations=read_allocations, totals=read_totals)
 
